@@ -59,6 +59,12 @@ def gen(rng, tier):
             add(line, (cmd, "sel:" + sel.split(":")[0], "via:flag"), {"via": {"mnemonic": "flag", "password": "flag", "index": "flag", "path": "flag"}, "pair": g},
                 nt=(sel != "default" or pw != "-"))
             add(line, (cmd, "sel:" + sel.split(":")[0], "via:env"), {"via": {"mnemonic": "env", "password": "env", "index": "env", "path": "env"}, "pair": g}, nt=False)
+    # one mnemonic, many indices: output formatting must hold for every key (leading zero nibbles/bytes in
+    # the address, the secret, the coordinates occur for roughly 1 key in 16 / 256)
+    mn_sweep = hx(" ".join(bip39.rand_phrase(rng, 12)))
+    for i in range(400 if tier == "thorough" else 120):
+        for cmd in ("cli.address", "cli.export", "cli.public_key"):
+            add("%s %s - idx:%s" % (cmd, mn_sweep, hx(str(i))), (cmd, "index-sweep"), {"via": {"mnemonic": "env", "index": "flag"}})
     # bad selectors / conflicts
     mn, pw, _ = rand_acct(rng)
     for sel in ["idx:" + hx("2147483648"), "idx:" + hx("4294967296"), "idx:" + hx("18446744073709551615"), "idx:" + hx("18446744073709551616"), "idx:" + hx("-1"),
